@@ -136,7 +136,7 @@ pub fn run(tier: Tier, seed: u64, only: Option<usize>) -> i32 {
         "'target distance established' = a genuine target response to the probe at the topology's true distance was read (paths here are stable)".into(),
     ];
     rep.required_clauses = vec!["ttl_order_no_gaps", "never_above_max_ttl", "no_send_after_target_answered", "never_above_established_distance", "inflight_window", "every_round_sends_first_ttl"];
-    let n = tier.pick(1500, 40_000);
+    let n = tier.pick(30_000, 600_000);
     match only {
         Some(i) => {
             let o = run_scenario(seed, i, tier);
